@@ -65,12 +65,13 @@ def h_bbox_lattice():
     prove("intersection_associative", bb_eq((a & b) & c, a & (b & c)))
     prove("union_idempotent", bb_eq(a | a, a))
     prove("intersection_idempotent", bb_eq(a & a, a))
-    prove("absorption_1", bb_eq(a | (a & b), a), when=_overlap(a, b))
+    prove("absorption_1", bb_eq(a | (a & b), a))  # disjoint operands included (their meet is an inverted, i.e. empty, box)
     prove("absorption_2", bb_eq(a & (a | b), a))
     prove("union_contains_a", bb_contains(a | b, a))
     prove("union_contains_b", bb_contains(a | b, b))
-    prove("intersection_in_a", bb_contains(a, a & b), when=_overlap(a, b))
-    prove("intersection_in_b", bb_contains(b, a & b), when=_overlap(a, b))
+    prove("intersection_in_a", bb_contains(a, a & b))
+    prove("intersection_in_b", bb_contains(b, a & b))
+    prove("intersection_nonempty_iff_overlap", And(ex((a & b).left) <= ex((a & b).right), ex((a & b).bottom) <= ex((a & b).top)) == _overlap(a, b))
     # union is the smallest box containing both
     d = mk_bb("d")
     prove("union_smallest", bb_contains(d, a | b), when=And(bb_contains(d, a), bb_contains(d, b)))
@@ -172,6 +173,15 @@ def h_intersection(base):
     prove("overlap_roi_y", And(ry.start == T - ty0, ry.stop == B_ - ty0), when=shared)
     prove("overlap_roi_within", And(0 <= rx.start, rx.stop <= nx0, 0 <= ry.start, ry.stop <= ny0), when=shared)
     prove("overlap_roi_empty_when_disjoint", Or(rx.stop <= rx.start, ry.stop <= ry.start), when=Not(shared))
+    # ... as an index: under array slicing semantics (a negative stop counts from the end) it selects
+    # exactly the shared pixels, i.e. nothing when there are none
+    from .c17 import pysel
+
+    lox, cx = pysel(rx.start, rx.stop, nx0)
+    loy, cy = pysel(ry.start, ry.stop, ny0)
+    prove("overlap_roi_selects_shared_x", And(lox == L - tx0, cx == w), when=shared)
+    prove("overlap_roi_selects_shared_y", And(loy == T - ty0, cy == h), when=shared)
+    prove("overlap_roi_selects_nothing_when_disjoint", Or(cx == 0, cy == 0), when=Not(shared))
 
 
 def h_assoc(base, op):
